@@ -498,6 +498,7 @@ def drive(tier, seed, runs, pool, run_world):
 
     res = dict(zip([(g[0], k) for g, k in jobs], pool.map(one, jobs)))
     results = []
+    fetched = {}
     for g in groups:
         gi, lo, hi = g
         ref = res[(gi, 0)]
@@ -535,9 +536,17 @@ def drive(tier, seed, runs, pool, run_world):
                                                      'detail': 'client logs differ between the reference world '
                                                                'and world %d' % k}})
             digests.append(digest(rd))
-        # fetch literal cases for (a few) violations by re-running the two worlds
+        # fetch literal cases for (a few) violations by re-running the two worlds;
+        # at most four per class over the whole check (a broken tree can violate
+        # in every group, and every fetch costs two more worlds)
         vout = []
-        for v in violations[:3]:
+        chosen = []
+        for v in violations:
+            cls = v['violation']['class']
+            if fetched.get(cls, 0) < 4:
+                fetched[cls] = fetched.get(cls, 0) + 1
+                chosen.append(v)
+        for v in chosen:
             k = v['world']
             a = one((g, 0), want=[v['index']])['cases'].get(str(v['index']))
             b = one((g, k), want=[v['index']])['cases'].get(str(v['index'])) if k else None
